@@ -98,6 +98,8 @@ class Mod:
         self.classes = {}
         self.imports = {}
         self.globals = set()
+        self.global_alias = {}
+        self.global_const = set()
         body = list(tree.body)
         for n in tree.body:             # `try: from x import y / except ImportError: …` compatibility imports
             if isinstance(n, ast.Try):
@@ -123,6 +125,39 @@ class Mod:
                 for t in n.targets:
                     if isinstance(t, ast.Name):
                         self.globals.add(t.id)
+                        alts = self.ext_function_alias(n.value)
+                        if alts:
+                            self.global_alias[t.id] = alts      # `_trapezoid = getattr(np, "trapezoid", None) or np.trapz`
+                        elif isinstance(n.value, ast.Constant) and isinstance(n.value.value, (int, float, str, bool, type(None), complex)):
+                            self.global_const.add(t.id)         # immutable module constant
+
+    def ext_function_alias(self, e):
+        """module-level alias of a function of an external module: list of (root, attribute chain), or None"""
+        if isinstance(e, ast.BoolOp):
+            out = []
+            for v in e.values:
+                a = self.ext_function_alias(v)
+                if a is None:
+                    return None
+                out += a
+            return out
+        if isinstance(e, ast.Constant) and e.value is None:
+            return []
+        if isinstance(e, ast.Call) and isinstance(e.func, ast.Name) and e.func.id == "getattr" and len(e.args) >= 2 \
+                and isinstance(e.args[0], ast.Name) and isinstance(e.args[1], ast.Constant) and isinstance(e.args[1].value, str):
+            root = e.args[0].id
+            if self.imports.get(root, ("",))[0] == "extmod":
+                return [(root, [e.args[1].value])]
+            return None
+        if isinstance(e, ast.Attribute):
+            parts = []
+            x = e
+            while isinstance(x, ast.Attribute):
+                parts.append(x.attr)
+                x = x.value
+            if isinstance(x, ast.Name) and self.imports.get(x.id, ("",))[0] == "extmod":
+                return [(x.id, list(reversed(parts)))]
+        return None
 
 
 SCALAR_ANN = {"int", "float", "str", "bool", "complex"}
@@ -327,7 +362,7 @@ class Walker:
         if imp or name in fr.mod.functions or name in fr.mod.classes:
             return set()        # module / function / class object
         if name in fr.mod.globals:
-            if name == "logger":
+            if name == "logger" or name in fr.mod.global_alias or name in fr.mod.global_const:
                 return set()
             raise Unrecognised(f"{self.name}: reads module-level variable {name} ({self.file}:{node.lineno})")
         if name in BUILTIN_FRESH or name in BUILTIN_ALIAS or name in ("self",):
@@ -409,6 +444,11 @@ class Walker:
                 return s | self.ev_name(name, fr, f)
             if name in fr.mod.functions:
                 return self.inline(fr.mod, fr.mod.functions[name], e, fr, None, None)
+            if name in fr.mod.global_alias and fr.mod.global_alias[name]:
+                res = set()
+                for root, chain in fr.mod.global_alias[name]:   # any of the aliased external functions
+                    res |= self.ext_call(root, chain, e, fr)
+                return res
             if name in fr.mod.classes:
                 return self.construct(fr.mod, fr.mod.classes[name], e, fr)
             imp = fr.mod.imports.get(name)
